@@ -130,13 +130,18 @@ def concretize(con: Contract, sigcase: dict, model) -> dict:
 # ------------------------------------------------------------------ small-scope / random inputs
 def gen_values(t, rnd, scope):
     if isinstance(t, _Int):
-        return list(range(-2, scope + 2))
+        if t.pool is not None:
+            return list(t.pool)
+        return list(range(-3, 31)) + [51, 52, 53, 99, 100, 255, 256, 701, 702, 703, 16383, 16384, 18277, 18278,
+                                      475253, 475254, 10**9, -10**6]
     if isinstance(t, _Bool):
         return [False, True]
     if isinstance(t, _Str):
+        if t.pool is not None:
+            return list(t.pool)
         alpha = getattr(t, "alphabet", None) or "aZ09 #:.'\"$-"
         out = [""]
-        for n in range(1, min(scope, 3) + 1):
+        for n in range(1, min(scope, t.maxlen) + 1):
             for tup in itertools.product(alpha, repeat=n):
                 out.append("".join(tup))
         return out
